@@ -4,7 +4,7 @@ CONSTANTS
   KeyLen = 2
   Names = {"a"}
   Main = {"a"}
-  Opts <- OptsQuick
+  Opts <- OptsFull
   MaxMaj = 3
   MaxMin = 1
   MaxForks = 0
